@@ -97,7 +97,7 @@ const HAND: &[&str] = &[
 ];
 
 pub fn run(ctx: &Ctx, acc: &mut Acc) {
-    let max_cases: u64 = if ctx.quick() { 800 } else { 100_000_000 };
+    let max_cases: u64 = if ctx.quick() { 2_500 } else { 100_000_000 };
     let mut i = 0u64;
     let pairs_per_program = if ctx.quick() { 8 } else { 48 };
     // hand-written oddities first (empty declarations, empty clause lists, trailing commas, ...)
